@@ -501,7 +501,7 @@ theorem executeWithRetry_eqv (cfg : Cfg) : Eqv (executeWithRetry cfg) := by
   unfold executeWithRetry
   eqv [runExecute_eqv, executeLadder_eqv, recordSuccess_eqv, recordCancel_eqv, recordFailureP_eqv]
 
-theorem noRetryLadder_eqv (cfg : Cfg) (e : Exn) : Eqv (noRetryLadder cfg e) := by
+theorem noRetryLadder_eqv (cfg : Cfg) (b : Bool) (e : Exn) : Eqv (noRetryLadder cfg b e) := by
   unfold noRetryLadder
   eqv [recordCancel_eqv, noRetryEndHook_eqv, policyOutcome_eqv, recordFailureP_eqv]
 
